@@ -144,7 +144,7 @@ def _step(b: Builder, h: str, profile, H: int, force_mapped: bool = False) -> st
     rng = b.rng
     B, S, D = b.shape(h)
     forms = set(profile.get("forms", []))
-    mapped = ["linear_pair", "gelu", "silu", "softmax", "dropout", "layer_norm", "matmul", "sdpa", "linear_one"]
+    mapped = ["linear_pair", "gelu", "silu", "softmax", "dropout", "layer_norm", "matmul", "sdpa", "linear_one", "gate", "gate"]
     if "conv1d" in forms:
         mapped.append("conv1d")
     unmapped = ["tanh", "relu", "mul_scalar", "neg", "reshape_roundtrip", "slice_cat", "add_scalar", "mul_tensor", "plain_add"]
@@ -161,6 +161,14 @@ def _step(b: Builder, h: str, profile, H: int, force_mapped: bool = False) -> st
         return _linear(b, h, H, D, forms)
     if choice == "linear_one":
         return _linear(b, h, D, D, forms)
+    if choice == "gate":
+        # multi-input op whose operands are the current tensor itself and something computed from it (gating / weighting):
+        # h * g(linear(h)) or g(linear(h)) * h, also via matmul with a softmax-ed square map
+        t = _linear(b, h, D, D, forms)
+        kind = rng.choice(["softmax", "softmax", "tanh", "silu", "gelu"])
+        gte = b.op(kind, [t], [B, S, D], **({"dim": -1} if kind == "softmax" else {}))
+        ins = [h, gte] if rng.random() < 0.5 else [gte, h]
+        return b.op("mul", ins, [B, S, D])
     if choice in ("gelu", "silu", "tanh", "relu", "neg"):
         kw = {"approximate": "tanh"} if (choice == "gelu" and rng.random() < 0.3) else {}
         if choice == "gelu" and "nn_gelu" in forms and rng.random() < 0.3:
